@@ -83,6 +83,7 @@ class DeterministicOde(BaseOdeModel):
         self.add_func("diff_jacobian", self.get_diff_jacobian_eqn, oT="mat")
         self.add_func("grad", self.get_grad_eqn, oT="mat")
         self.add_func("grad_jacobian", self.get_grad_jacobian_eqn, oT="mat")
+        self.add_func("grad_grad", self.get_grad_grad_eqn, oT="mat")
         # TODO: update _Hessian and _HessianWithParam to this framework.
         self._Hessian=None
         self._HessianWithParam=None
@@ -655,6 +656,37 @@ class DeterministicOde(BaseOdeModel):
         # end of the triple loop.  All elements are now filled
 
         return self._GradJacobian
+
+    def get_grad_grad_eqn(self):
+        '''
+        Return the second derivative of the ode with respect to the
+        parameters in algebraic form
+
+        Returns
+        -------
+        :class:`sympy.matrices.matrices`
+            A matrix of dimension [number of state *
+            number of parameters x number of parameters], where row
+            i * number of parameters + j is the derivative of
+            :math:`\\partial f_{i} / \\partial \\theta_{j}` with respect to
+            each of the parameters
+
+        See also
+        --------
+        :meth:`.get_grad_eqn`
+
+        '''
+        G = self.get_grad_eqn()
+        self._GradGrad = sympy.zeros(self.num_state*self.num_param,
+                                     self.num_param)
+        for i in range(0, self.num_state):
+            for j in range(0, self.num_param):
+                for k, p in enumerate(self._iterParamList()):
+                    eqn, isDifficult = simplifyEquation(diff(G[i,j], p, 1))
+                    self._GradGrad[i*self.num_param + j,k] = eqn
+                    self._isDifficult = self._isDifficult or isDifficult
+
+        return self._GradGrad
 
     def grad_jacobianT(self, t, state):
         '''
@@ -1795,6 +1827,13 @@ class DeterministicOde(BaseOdeModel):
         # here use a sparse matrix operation
         outFF = self._SAUtil.kronParam(J).dot(FF)
         outFF += self._SAUtil.kronState(A=S.T, pre=True).dot(diffJ).dot(S)
+        # the terms that come from the explicit dependence of f on the
+        # parameters: d2f/(dx dtheta) S, its transpose, and d2f/dtheta2
+        nS, nP = self.num_state, self.num_param
+        GJS = self.grad_jacobian(state, t).dot(S).reshape(nP, nS, nP)
+        GJS = GJS.transpose(1, 0, 2)
+        outFF += (GJS + GJS.transpose(0, 2, 1)).reshape(nS*nP, nP)
+        outFF += self.grad_grad(state, t)
 
         # now we need to magic our list / matrix into a vector, aka append
         # each of the vectorized matrix one after another
